@@ -798,7 +798,7 @@ class Executor(object):
                 leaf = True
                 for b in fn.blocks:
                     for ins in b['instrs']:
-                        if ins['op'] in ('lookup', 'slice') and ins['x'].get('k') == 'param':
+                        if ins['op'] in ('lookup', 'slice', 'index') and ins['x'].get('k') == 'param':
                             idx.add(ins['x']['n'])
                         if ins['op'] == 'call':
                             c = ins['call']
@@ -1276,6 +1276,8 @@ class Executor(object):
 
     def i_index(self, act, ins):
         x = self.ev(act, ins['x'])
+        if isinstance(x, Str):
+            return self.i_lookup(act, ins)
         idx = self.ev(act, ins['index'])
         ics = self.int_cases(idx, 'index')
         res = []
@@ -1637,6 +1639,35 @@ def stub_table(ex, args, guard, ins):
     return table(_label(args[0]), args[1])
 
 
+def stub_param(ex, args, guard, ins):
+    nm = _label(args[0])
+    v = getattr(ex, 'params', {}).get(nm, _intarg(args[1]))
+    if not hasattr(ex, 'params_used'):
+        ex.params_used = {}
+    ex.params_used[nm] = v
+    return bv(v, 64)
+
+
+def _varargs(sl):
+    if not isinstance(sl, Slc) or len(sl.alts) != 1:
+        raise Unsupported('variadic argument')
+    g, o, off, ln, cap = sl.alts[0]
+    if o is None:
+        return []
+    return list(o.val.e[off:off + ln])
+
+
+def stub_relation(kind):
+    def stub(ex, args, guard, ins):
+        if guard is not TRUE:
+            raise Unsupported('verif.%s under a path condition' % kind)
+        if not hasattr(ex, 'extras'):
+            ex.extras = []
+        ex.extras.append({'kind': kind, 'name': _label(args[0]), 'val': args[1], 'digits': _varargs(args[2])})
+        return None
+    return stub
+
+
 def stub_observe(ex, args, guard, ins):
     ex.observed.append((_label(args[0]), args[1], guard))
     return None
@@ -1764,6 +1795,9 @@ STUBS = {
     'verifharness/verif.Table': stub_table,
     'verifharness/verif.Observe': stub_observe,
     'verifharness/verif.Havoc': stub_havoc,
+    'verifharness/verif.Param': stub_param,
+    'verifharness/verif.Functional': stub_relation('functional'),
+    'verifharness/verif.Monotone': stub_relation('monotone'),
     '(*sync.Pool).Get': stub_pool_get,
     '(*sync.Pool).Put': stub_pool_put,
     'errors.New': stub_errors_new,
